@@ -245,7 +245,9 @@ func (e *FEnc) instr(st *State, b *ssa.BasicBlock, idx int, in ssa.Instruction) 
 		mt := x.Type().Underlying().(*types.Map)
 		dn, ds, _, _ := e.mapHeaps(mt)
 		d := e.heapGet(st, dn, ds)
-		e.heapSet(st, dn, ds, fmt.Sprintf("(store %s %s ((as const (Array %s Bool)) false))", d, m, e.sortOf(mt.Key())))
+		empty := fmt.Sprintf("((as const (Array %s Bool)) false)", e.sortOf(mt.Key()))
+		e.heapSet(st, dn, ds, fmt.Sprintf("(store %s %s %s)", d, m, empty))
+		e.fact(fmt.Sprintf("(= (%s %s) 0)", e.cardFn(mt), empty))
 		e.define(x, &Val{Ty: x.Type(), Sort: "Ref", T: m})
 	case *ssa.MapUpdate:
 		mt := x.Map.Type().Underlying().(*types.Map)
@@ -257,6 +259,8 @@ func (e *FEnc) instr(st *State, b *ssa.BasicBlock, idx int, in ssa.Instruction) 
 		d := e.heapGet(st, dn, ds)
 		hv := e.heapGet(st, vn, vs)
 		e.heapSet(st, dn, ds, fmt.Sprintf("(store %s %s (store (select %s %s) %s true))", d, m, d, m, k))
+		// cardinality of the key set: grows by one exactly when the key is new
+		e.fact(fmt.Sprintf("(= (%[1]s (store (select %[2]s %[3]s) %[4]s true)) (+ (%[1]s (select %[2]s %[3]s)) (ite (select (select %[2]s %[3]s) %[4]s) 0 1)))", e.cardFn(mt), d, m, k))
 		e.heapSet(st, vn, vs, fmt.Sprintf("(store %s %s (store (select %s %s) %s %s))", hv, m, hv, m, k, v))
 	case *ssa.Range:
 		e.define(x, &Val{Ty: x.Type(), Sort: "Iter", T: "iter"})
